@@ -44,9 +44,29 @@ structure TraceCase where
   coids : List Nat
   deriving FromJson
 
+/-- How a recorded predicate callback ended (`Res`). -/
+inductive ResJ where
+  | skipped
+  | raised
+  | ok (dT dF : NumJ)
+  deriving FromJson
+
+/-- One recorded tracer callback with the callbacks made while it ran (`Call`). -/
+inductive CallJ where
+  | enter (coid : Nat)
+  | pred (p : Nat) (body : List CallJ) (res : ResJ)
+  deriving FromJson
+
+structure CallsCase where
+  calls : List CallJ
+  npreds : Nat
+  coids : List Nat
+  deriving FromJson
+
 inductive Case where
   | cfg (c : CfgCase)
   | trace (c : TraceCase)
+  | calls (c : CallsCase)
   deriving FromJson
 
 def t := PynguinModel.BranchInstr.Generated.liveTable
@@ -90,9 +110,51 @@ def runTrace (c : TraceCase) : Json :=
       ("entered", toJson (c.coids.map (fun i => (i, codeObjectCovered tr i)))),
       ("executed", toJson tr.executed)]
 
+def traceJson (tr : Trace) (npreds : Nat) (coids : List Nat) : List (String × Json) := [
+  ("branch", Json.arr ((List.range npreds).map (fun p =>
+      Json.arr #[toJson p, optB (branchCovered tr p true), optB (branchCovered tr p false)])).toArray),
+  ("entered", toJson (coids.map (fun i => (i, codeObjectCovered tr i)))),
+  ("executed", toJson tr.executed)]
+
+def resOf : ResJ → Option Res
+  | .skipped => some .skipped
+  | .raised => some .raised
+  | .ok a b => do
+    let x ← a.toNum?
+    let y ← b.toNum?
+    pure (.ok x y)
+
+partial def callOf : CallJ → Option Call
+  | .enter c => some (.enter c)
+  | .pred p body res => do
+    let b ← body.mapM callOf
+    let r ← resOf res
+    pure (.pred p b r)
+
+/-- Replay the recorded top-level callbacks one by one on the model tracer (the tree's code:
+`restore = true`): the flag after each, the first record the model cannot accept, the final trace. -/
+def runCalls (c : CallsCase) : Json :=
+  match c.calls.mapM callOf with
+  | none => Json.mkObj [("bad-op", "bad number")]
+  | some cs =>
+    let step := fun (acc : TState × List Bool × Option Nat × Nat) (call : Call) =>
+      let (s, flags, bad, i) := acc
+      match bad with
+      | some _ => (s, flags, bad, i + 1)
+      | none =>
+        match TState.call true s call with
+        | some s' => (s', flags ++ [s'.enabled], none, i + 1)
+        | none => (s, flags, some i, i + 1)
+    let (s, flags, bad, _) := cs.foldl step (TState.init, [], none, 0)
+    Json.mkObj ([
+      ("rejected", match bad with | some i => toJson i | none => Json.null),
+      ("flags", toJson flags),
+      ("enabled", toJson s.enabled)] ++ traceJson s.trace c.npreds c.coids)
+
 def runCase : Case → Json
   | .cfg c => runCfg c
   | .trace c => runTrace c
+  | .calls c => runCalls c
 
 partial def loop (h : IO.FS.Stream) : IO Unit := do
   let line ← h.getLine
